@@ -48,13 +48,23 @@ def main():
         i = args.index("--jobs")
         jobs = int(args[i + 1])
         del args[i:i + 2]
+    outname = None
+    if "--out" in args:
+        i = args.index("--out")
+        outname = args[i + 1]
+        del args[i:i + 2]
+    if "--match" in args:
+        i = args.index("--match")
+        pat = args[i + 1]
+        del args[i:i + 2]
+        args = [m for m in sorted(os.listdir(os.path.join(VERIF, "seeded"))) if pat in m]
     muts = args or sorted(os.listdir(os.path.join(VERIF, "seeded")))
     muts = [m for m in muts if os.path.isdir(os.path.join(VERIF, "seeded", m))]
     with ProcessPoolExecutor(jobs) as ex:
         results = list(ex.map(one, muts))
     out = {r["mutant"]: r for r in results}
-    path = os.path.join(VERIF, "seeded", "MATRIX.json")
-    if not args or len(muts) > 30:
+    path = os.path.join(VERIF, "seeded", outname or "MATRIX.json")
+    if outname or not args:
         head = subprocess.run(["git", "-C", "/repo", "rev-parse", "--short", "HEAD"], stdout=subprocess.PIPE, text=True).stdout.strip()
         with open(path, "w") as f:
             json.dump({"repo_head": head, "results": out}, f, indent=1)
